@@ -294,18 +294,67 @@ func (m *LockModel) lockCall(f *Func, call *ast.CallExpr) (k lockKind, release b
 
 // wrapperKind: a function whose body is a single lock/unlock call (primitive or wrapper).
 func (m *LockModel) wrapperKind(f *Func) (lockKind, bool, bool) {
-	if len(f.Decl.Body.List) != 1 {
+	if len(f.Decl.Body.List) == 1 {
+		if es, ok := f.Decl.Body.List[0].(*ast.ExprStmt); ok {
+			if call, ok := es.X.(*ast.CallExpr); ok {
+				return m.lockCall(f, call)
+			}
+		}
+	}
+	// a function that takes (or gives back) the lock unconditionally as one of its top-level statements and does
+	// nothing else with it — `func begin(rm) *stmt { rm.StartTxn(); return &stmt{rm} }` — returns with the lock held
+	// (released) on every path
+	var kind lockKind
+	var rel bool
+	n := 0
+	for _, st := range f.Decl.Body.List {
+		if es, ok := st.(*ast.ExprStmt); ok {
+			if call, ok := es.X.(*ast.CallExpr); ok {
+				if k, r, ok := m.lockCall(f, call); ok {
+					kind, rel = k, r
+					n++
+					continue
+				}
+			}
+		}
+	}
+	if n != 1 {
 		return lockNone, false, false
 	}
-	es, ok := f.Decl.Body.List[0].(*ast.ExprStmt)
-	if !ok {
+	// no other lock call anywhere in the body (nested, deferred, in a literal)
+	total := 0
+	ast.Inspect(f.Decl.Body, func(x ast.Node) bool {
+		if call, ok := x.(*ast.CallExpr); ok {
+			if _, _, ok := m.lockCall(f, call); ok {
+				total++
+			}
+		}
+		return true
+	})
+	if total != 1 {
 		return lockNone, false, false
 	}
-	call, ok := es.X.(*ast.CallExpr)
-	if !ok {
-		return lockNone, false, false
+	// and no return before it
+	for _, st := range f.Decl.Body.List {
+		if es, ok := st.(*ast.ExprStmt); ok {
+			if call, ok := es.X.(*ast.CallExpr); ok {
+				if _, _, ok := m.lockCall(f, call); ok {
+					break
+				}
+			}
+		}
+		early := false
+		ast.Inspect(st, func(x ast.Node) bool {
+			if _, ok := x.(*ast.ReturnStmt); ok {
+				early = true
+			}
+			return true
+		})
+		if early {
+			return lockNone, false, false
+		}
 	}
-	return m.lockCall(f, call)
+	return kind, rel, true
 }
 
 // Brackets computes, for graph g of function f, which node locations are inside
@@ -329,12 +378,17 @@ func (m *LockModel) BracketsOf(g *Graph) *Brackets {
 			continue
 		}
 		for i, n := range blk.Nodes {
-			es, ok := n.(*ast.ExprStmt)
-			if !ok {
-				continue
+			var call *ast.CallExpr
+			switch y := n.(type) {
+			case *ast.ExprStmt:
+				call, _ = y.X.(*ast.CallExpr)
+			case *ast.AssignStmt:
+				// st := begin(rm): a wrapper that returns a handle with the lock held
+				if len(y.Rhs) == 1 {
+					call, _ = ast.Unparen(y.Rhs[0]).(*ast.CallExpr)
+				}
 			}
-			call, ok := es.X.(*ast.CallExpr)
-			if !ok {
+			if call == nil {
 				continue
 			}
 			if k, rel, ok := m.lockCall(g.f, call); ok && !rel {
